@@ -3,7 +3,8 @@
 From stdpp Require Import gmap strings.
 From RecordUpdate Require Import RecordSet.
 Import RecordSetNotations.
-From EV Require Import Base.Str Model.Value Model.Keyspace Model.Reply Model.Prog Model.CmdList Model.CmdGeneric Model.CmdString.
+From EV Require Import Base.Str Model.Value Model.Keyspace Model.Reply Model.Prog.
+From EV Require Import Model.CmdList Model.CmdHash Model.CmdSet Model.CmdZSet Model.CmdGeneric Model.CmdString.
 Local Open Scope Z_scope.
 
 Record world := World {
@@ -19,7 +20,8 @@ Definition first_some {A} (l : list (option A)) : option A :=
   fold_right (fun o acc => match o with Some x => Some x | None => acc end) None l.
 
 Definition handler_of (name : string) : option (list string -> prog reply) :=
-  first_some [list_handler name; generic_handler name; string_handler name].
+  first_some [list_handler name; hash_handler name; set_handler default_pick name; zset_handler name;
+              generic_handler name; string_handler name].
 
 Definition exec_cmd (w : world) (c : Z) (argv : list string) : world * reply :=
   match argv with
